@@ -853,6 +853,16 @@ class Node:
                           f"{msg.header.end_to_end_identifier}")
             self._origin_waiting_answer[message_id] = (
                 msg.origin_host, time.time(), conn.ident)
+            if self.connections.get(conn.ident) is not conn:
+                # the connection has been removed while its read thread was
+                # still handing over what it had received; the removal may
+                # have run before the record was made, and no answer can be
+                # sent any more
+                self._origin_waiting_answer.pop(message_id, None)
+                self.logger.debug(
+                    f"{conn} is gone, dropping request "
+                    f"{hex(msg.header.hop_by_hop_identifier)}")
+                return
 
         peer = self._find_connection_peer(conn)
         if peer:
@@ -979,6 +989,11 @@ class Node:
             message_id = (f"{message.header.hop_by_hop_identifier}:"
                           f"{message.header.end_to_end_identifier}")
             waiting[message_id] = time.time()
+            if self.connections.get(conn.ident) is not conn:
+                # as in `_receive_message`: removed meanwhile, nobody will
+                # ever clear the entry
+                self._peer_waiting_answer.pop(conn.ident, None)
+                return
             receiving_app.receive_request(message)
             return
 
